@@ -39,12 +39,13 @@ void * network_connect(struct sock_addr * const * sas, int (*cb)(void *, int), v
 int close(int fd) { (void)fd; return 0; }
 /* ---- user callback ---- */
 static int ucb_calls, ucb_null, ucb_bad; static size_t max0;
+static uint8_t CB_BODY[32]; static size_t cb_bodylen;
 static int ucb(void * c, struct http_response * r)
 {
 	(void)c; ucb_calls++;
 	if (r == NULL) { ucb_null = 1; return 0; }
 	if (r->bodylen == (size_t)(-1)) { if (r->body != NULL) ucb_bad = 1; }
-	else { if (r->bodylen > max0) ucb_bad = 1; if (r->bodylen > 0 && r->body == NULL) ucb_bad = 1; }
+	else { if (r->bodylen > max0) ucb_bad = 1; if (r->bodylen > 0 && r->body == NULL) ucb_bad = 1; cb_bodylen = r->bodylen; for (size_t i = 0; i < 32; i++) if (i < r->bodylen && r->body != NULL) CB_BODY[i] = r->body[i]; }
 	free(r->body);
 	return 0;
 }
@@ -135,5 +136,63 @@ void h_toeof_gotclen(void)
 		(void)get_body_gotclen(H, len);
 	}
 	outcome(0);
+	REACHED();
+}
+
+/* ---------------- C09: exactness of the body stages on well-formed input ---------------- */
+void h_readdata_exact(void)
+{
+	struct http_cookie * H = mk();
+	ASSUME(H->readlen >= 1 && H->readlen <= H->res_bodylen_max - H->res.bodylen);
+	if (H->chunked) ASSUME(H->readlen + H->res.bodylen >= 2);
+	ASSUME(DLEN > 0 || H->res.body != NULL);
+	ASSUME(!wait_refuse);
+	static uint8_t D0[NMAX], B0[8];
+	size_t d0n = DLEN, bl0 = H->res.bodylen, rl0 = H->readlen; int ch0 = H->chunked;
+	for (size_t i = 0; i < NMAX; i++) if (i < d0n) D0[i] = DATA[i];
+	for (size_t i = 0; i < 8; i++) if (i < bl0) B0[i] = H->res.body[i];
+	(void)callback_readdata(H, 0);
+	size_t take = d0n < rl0 ? d0n : rl0;
+	CHECK(DLEN == d0n - take, "exactly min(buffered, remaining) bytes are consumed");
+	size_t i = nd_size(); ASSUME(i < 32);
+	if (ucb_calls == 1) {	/* Content-Length body complete */
+		CHECK(!ucb_null && !ch0 && take == rl0, "callback exactly when the announced length has arrived");
+		CHECK(cb_bodylen == bl0 + take, "body length = bytes received");
+		if (i < cb_bodylen) CHECK(CB_BODY[i] == (i < bl0 ? B0[i] : D0[i - bl0]), "body = previous body || newly arrived bytes, in order");
+	} else if (ho_chunkhdr) {	/* chunk complete: trailing CRLF stripped, on to the next chunk-size line */
+		CHECK(ch0 && take == rl0 && H->res.bodylen == bl0 + take - 2, "chunk data kept, its CRLF stripped");
+		if (i < H->res.bodylen) CHECK(H->res.body[i] == (i < bl0 ? B0[i] : D0[i - bl0]), "body = previous body || chunk data, in order");
+	} else {	/* more to come */
+		CHECK(waits == 1 && take < rl0 && H->readlen == rl0 - take && H->res.bodylen == bl0 + take, "partial arrival recorded, waiting for the rest");
+		if (i < H->res.bodylen) CHECK(H->res.body[i] == (i < bl0 ? B0[i] : D0[i - bl0]), "body = previous body || newly arrived bytes, in order");
+	}
+	REACHED();
+}
+void h_chunkhdr_exact(void)
+{
+	struct http_cookie * H = mk();
+	H->chunked = 1;
+	ASSUME(!wait_refuse);
+	size_t d0n = DLEN, bl0 = H->res.bodylen, mx = H->res_bodylen_max;
+	/* well-formed chunk-size line: 1..2 hex digits, optional ';' extension (no CR/LF inside), CR LF */
+	size_t nd_ = 0; size_t v = 0;
+	for (size_t k = 0; k < 2; k++) if (nd_ == k && k < d0n && vhs_digit(DATA[k]) < 16) { v = v * 16 + (size_t)vhs_digit(DATA[k]); nd_++; }
+	ASSUME(nd_ >= 1);
+	size_t e = nd_;	/* end of the line */
+	int ok = 1;
+	if (e < d0n && DATA[e] == ';') { e++; for (size_t k = 0; k < NMAX; k++) if (e < d0n && DATA[e] != '\r' && DATA[e] != '\n' && k < NMAX) e++; }
+	ASSUME(e + 2 <= d0n && DATA[e] == '\r' && DATA[e + 1] == '\n');
+	for (size_t k = 0; k + 1 < NMAX; k++) if (k < e) ASSUME(!(DATA[k] == '\r' && DATA[k + 1] == '\n'));
+	(void)ok;
+#ifdef KF_http_chunk_crlf_vs_limit
+	ASSUME(!(v > 0 && v <= mx - bl0 && v + 2 > mx - bl0));
+#endif
+	(void)callback_chunkedheader(H, 0);
+	if (v == 0) { CHECK(ucb_calls == 1 && !ucb_null && cb_bodylen == bl0, "size 0: the body is complete and delivered"); }
+	else if (v > mx - bl0) { CHECK(ucb_calls == 1 && !ucb_null, "chunk beyond the limit: reported as too big"); }
+	else {
+		CHECK(ho_readdata == 1 && ho_readlen == v + 2, "the data stage is asked for exactly chunk-size bytes plus the CRLF (extensions ignored)");
+		CHECK(DLEN == d0n - (e + 2), "exactly the chunk-size line is consumed");
+	}
 	REACHED();
 }
